@@ -21,7 +21,7 @@ TIMEOUT = {'quick': 1500, 'thorough': 6 * 3600}
 ANCHORS = ['lp:LinProg.lp_export', 'lp:LinProg.to_lp', 'socp:SOCProg.lp_export',
            'lp:LinProg.showlc', 'socp:SOCProg.showqc', 'gcp:GCProg.show', 'gcp:GCProg.showec']
 FLOORS = {'judged': {'quick': 550, 'thorough': 11000}, 'nontrivial': 60,
-          'counters': {'gurobi_roundtrips': 150, 'show_tables': 300}}
+          'counters': {'gurobi_roundtrips': 150, 'show_tables': 300, 'show_tables_expcone': 10}}
 RULE = ('compiled LP/MILP/SOCP programs (all bound patterns, empty rows, binaries/integers with '
         'user bounds, robust counterparts) plus rescaled coefficients 1e-12..1e12, exact zeros '
         'and negative zeros; parsed back by rv/lpformat.py and by gurobipy.read, show() compared '
@@ -76,10 +76,11 @@ def run_case(spec, ctx):
         ctx.count('rsome_raises_build:' + type(e).__name__)
         return {'status': 'skip', 'reason': 'rsome raised at build: %s' % type(e).__name__}
     cls = C.cone_class(f)
-    if 'X' in cls:
-        return {'status': 'skip', 'reason': 'exp-cone program (not exportable)'}
+    # exp-cone programs cannot be exported (outside the statement); their show() table is
+    # checked like every other one
+    exp_prog = 'X' in cls
     detail = []
-    text = f.lp_export()
+    text = '' if exp_prog else f.lp_export()
     A = sp.csr_matrix(f.linear).toarray()
     n = A.shape[1]
     feats = {'class': src['kind'], 'cone': cls, 'rescaled': src.get('rescale') is not None,
@@ -87,11 +88,12 @@ def run_case(spec, ctx):
              'head_not_last': any(len(q_) > 1 and q_[0] < max(q_[1:]) for q_ in
                                   (getattr(f, 'qmat', None) or []))}
     # ---- (1) independent reader
-    try:
-        P = lpformat.parse(text)
-    except lpformat.LPFormatError as e:
-        detail.append({'what': 'export cannot be parsed', 'error': str(e)[:200]})
-        P = None
+    P = None
+    if not exp_prog:
+        try:
+            P = lpformat.parse(text)
+        except lpformat.LPFormatError as e:
+            detail.append({'what': 'export cannot be parsed', 'error': str(e)[:200]})
     if P is not None:
         def pad(v, fill=0.0):
             v = np.asarray(v, float)
@@ -142,6 +144,8 @@ def run_case(spec, ctx):
     try:
         T = f.show()
         ctx.count('show_tables')
+        if exp_prog:
+            ctx.count('show_tables_expcone')
         bad = check_show(f, T, A)
         if bad:
             detail.append({'what': 'show() disagrees with the formula', 'where': bad})
@@ -151,7 +155,7 @@ def run_case(spec, ctx):
     lead_neg = any(ln.split(':', 1)[-1].strip().startswith('-') for ln in text.split('\n')
                    if ':' in ln)
     has_exp = 'e-' in text or 'e+' in text
-    if src.get('rescale') is None and not detail:
+    if src.get('rescale') is None and not detail and not exp_prog:
         try:
             r = gurobi_roundtrip(f, ctx)
             if r:
@@ -213,6 +217,8 @@ def check_show(f, T, A):
         row[e[0]], row[e[1]], row[e[2]] = 1, 2, 3
         if not np.array_equal(vals[r].astype(float), row):
             return 'EC row'
+        if T['sense'].iloc[r] != '-' or T['constant'].iloc[r] != '-':
+            return 'EC sense/constant'
         r += 1
     if not np.array_equal(vals[r].astype(float), np.asarray(f.ub, float)):
         return 'UB'
